@@ -292,7 +292,7 @@ Proof.
 Qed.
 
 (* everything C13 says about one epoch of the class-balanced sampler *)
-Lemma cb_epoch : forall c draw, perm_oracle draw -> cb_ctor_ok c = true -> 1 <= cb_W c ->
+Lemma cb_epoch_spec : forall c draw, perm_oracle draw -> cb_ctor_ok c = true -> 1 <= cb_W c ->
     let n := length (cb_classes c) in
     let C := cb_C c in let spc := cb_spc c in let W := cb_W c in
     let streams := map (fun rank => stream_of (r_out (cb_run c draw rank))) (seq 0 W) in
